@@ -29,6 +29,41 @@ def star : Name := [42]
 
 def str (s : String) : Bytes := s.toUTF8.toList.map (·.toNat)
 
+/-! byte-string constants, written out so that proofs can compute with them; each is checked
+    against its text by `#guard` (an evaluation, not a proof) -/
+def cMeta : Bytes := [92, 46, 43, 42, 63, 40, 41, 124, 91, 93, 123, 125, 94, 36]
+#guard cMeta == str "\\.+*?()|[]{}^$"
+def cSpiffe : Bytes := [115, 112, 105, 102, 102, 101, 58, 47, 47]
+#guard cSpiffe == str "spiffe://"
+def cSvc : Bytes := [47, 115, 118, 99, 47]
+#guard cSvc == str "/svc/"
+def cGwPath : Bytes := [47, 103, 97, 116, 101, 119, 97, 121, 47, 109, 101, 115, 104, 47, 100, 99, 47]
+#guard cGwPath == str "/gateway/mesh/dc/"
+def cUri : Bytes := [59, 85, 82, 73, 61]
+#guard cUri == str ";URI="
+def cPathSafe : Bytes := [45, 95, 46, 126, 36, 38, 43, 44, 47, 58, 59, 61, 64]
+#guard cPathSafe == str "-_.~$&+,/:;=@"
+def cMethod : Bytes := [58, 109, 101, 116, 104, 111, 100]
+#guard cMethod == str ":method"
+def cAnyPath : Bytes := [91, 94, 47, 93, 43]
+#guard cAnyPath == str "[^/]+"
+def cDefault : Bytes := [100, 101, 102, 97, 117, 108, 116]
+#guard cDefault == str "default"
+def cAp : Bytes := [47, 97, 112, 47]
+#guard cAp == str "/ap/"
+def cNsDefaultDc : Bytes := [47, 110, 115, 47, 100, 101, 102, 97, 117, 108, 116, 47, 100, 99, 47]
+#guard cNsDefaultDc == str "/ns/default/dc/"
+def cCaretSpiffe : Bytes := [94, 115, 112, 105, 102, 102, 101, 58, 47, 47]
+#guard cCaretSpiffe == str "^spiffe://"
+def cXfccHead : Bytes := [94, 91, 94, 44, 93, 43, 59, 85, 82, 73, 61]
+#guard cXfccHead == str "^[^,]+;URI="
+def cXfccTail : Bytes := [40, 63, 58, 44, 46, 42, 41, 63, 36]
+#guard cXfccTail == str "(?:,.*)?$"
+def cNs : Bytes := [47, 110, 115, 47]
+#guard cNs == str "/ns/"
+def cDc : Bytes := [47, 100, 99, 47]
+#guard cDc == str "/dc/"
+
 /-! ## the intentions (the program being translated) -/
 
 /-- `structs.IntentionHTTPHeaderPermission` -/
@@ -95,7 +130,7 @@ def less (a b : Ixn) : Bool :=
 
 def ins {α : Type} (lt : α → α → Bool) (x : α) : List α → List α
   | [] => [x]
-  | y :: ys => if lt x y then x :: y :: ys else y :: ins lt x ys
+  | y :: ys => if lt y x then y :: ins lt x ys else x :: y :: ys
 
 /-- stable insertion sort (for a comparator that is total on the elements every correct sort
     computes the same list; the harness keeps (peer, name, dst) unique) -/
@@ -326,7 +361,7 @@ def joinBar : List Name → Name
   | [m] => m
   | m :: ms => m ++ [124] ++ joinBar ms
 
-def methodHdr : Name := str ":method"
+def methodHdr : Name := cMethod
 
 def pathPart (h : HttpPerm) : List Pm :=
   if h.pathExact ≠ [] then [.urlPath (.exact h.pathExact false)]
@@ -378,7 +413,7 @@ def dfltAct (dflt : Bool) : Act := if dflt then .allow else .deny
 
 def insBy {α : Type} (key : α → Nat) (x : α) : List α → List α
   | [] => [x]
-  | y :: ys => if key x < key y then x :: y :: ys else y :: insBy key x ys
+  | y :: ys => if key y < key x then y :: insBy key x ys else x :: y :: ys
 
 /-- `sort.SliceStable` by `countWild` (stable insertion from the right) -/
 def stableSortBy {α : Type} (key : α → Nat) : List α → List α
@@ -470,14 +505,16 @@ def removeIntentionPrecedence (env : Env) (xf : Bool) (dflt : Bool) (xs : List R
 
 /-! ## policy assembly -/
 
-def orIdsOf : Pr → Option (List Pr)
-  | .orIds l => some l
-  | _ => none
+/-- the loop of `optimizePrincipals`: the ids of all ORs, or `none` at the first non-OR -/
+def collectOrIds : List Pr → Option (List Pr)
+  | [] => some []
+  | .orIds l :: rest => (collectOrIds rest).map (l ++ ·)
+  | _ :: _ => none
 
 /-- `optimizePrincipals`: if every principal is an OR, merge them into one OR -/
 def optimizePrincipals (ps : List Pr) : List Pr :=
-  match ps.mapM orIdsOf with
-  | some ls => [orPrincipals ls.flatten]
+  match collectOrIds ps with
+  | some ids => [orPrincipals ids]
   | none => ps
 
 def l7Policies : Nat → List FIxn → List (PolName × Policy)
@@ -568,38 +605,39 @@ def specAllow {C : Type} (σ : Sem C) (env : Env) (ixns : List Ixn) (dflt http :
 
 /-! ## the regular-expression layer: pattern text, its meaning, and the ids callers present -/
 
-def metaBytes : List Nat := (str "\\.+*?()|[]{}^$")
+def metaBytes : List Nat := cMeta
 
 /-- `regexp.QuoteMeta` -/
 def quoteMeta : Bytes → Bytes
   | [] => []
   | b :: s => if metaBytes.contains b then 92 :: b :: quoteMeta s else b :: quoteMeta s
 
-def anyPath : Bytes := str "[^/]+"
+def anyPath : Bytes := cAnyPath
 
-/-- partition as `SpiffeIDService.uriPath` prints it (CE): "" / "default" ⇒ no segment,
-    otherwise `/ap/<lower-cased>` -/
-def apSeg (ap : Bytes) : Bytes :=
-  let p := if ap = [] then str "default" else lower ap
-  if p = str "default" then [] else str "/ap/" ++ p
+/-- `SpiffeIDService.PartitionOrDefault` (CE): "" ⇒ "default", otherwise lower-cased -/
+def apName (ap : Bytes) : Bytes := if ap = [] then cDefault else lower ap
+
+/-- partition as `SpiffeIDService.uriPath` prints it (CE): "default" ⇒ no segment,
+    otherwise `/ap/<name>` -/
+def apSeg (ap : Bytes) : Bytes := if apName ap = cDefault then [] else cAp ++ apName ap
 
 /-- the partition `makeSpiffePattern` puts into the id: ExportedPartition for a peered source,
     the local `default` otherwise -/
-def srcAp (s : Src) : Bytes := if s.peer ≠ [] then s.ap else str "default"
+def srcAp (s : Src) : Bytes := if s.peer ≠ [] then s.ap else cDefault
 
 /-- `makeSpiffePattern` without the anchors -/
 def idPatternBody (s : Src) : Bytes :=
-  str "spiffe://" ++ s.td ++ apSeg (quoteMeta (srcAp s)) ++ str "/ns/default/dc/" ++ anyPath ++ str "/svc/"
+  cSpiffe ++ s.td ++ apSeg (quoteMeta (srcAp s)) ++ cNsDefaultDc ++ anyPath ++ cSvc
     ++ (if s.name = star then anyPath else quoteMeta s.name)
 
 /-- `makeSpiffePattern` -/
 def idPattern (s : Src) : Bytes := [94] ++ idPatternBody s ++ [36]
 
 /-- `makeSpiffeMeshGatewayPattern` (CE: the partition is not printed) -/
-def gwPattern (td : Bytes) : Bytes := str "^spiffe://" ++ td ++ str "/gateway/mesh/dc/" ++ anyPath ++ [36]
+def gwPattern (td : Bytes) : Bytes := cCaretSpiffe ++ td ++ cGwPath ++ anyPath ++ [36]
 
 /-- the pattern of `xfccPrincipal` -/
-def xfccPattern (s : Src) : Bytes := str "^[^,]+;URI=" ++ idPatternBody s ++ str "(?:,.*)?$"
+def xfccPattern (s : Src) : Bytes := cXfccHead ++ idPatternBody s ++ cXfccTail
 
 /-- what those patterns mean (RE2 and `QuoteMeta` are trusted for this reading) -/
 inductive Tok
@@ -636,12 +674,12 @@ def matchToks : List Tok → Bytes → Bool
       | c :: t => c = 44 && t.all (· ≠ 10)
 
 def idToksBody (s : Src) : List Tok :=
-  [.lit (str "spiffe://"), .host s.td, .lit (apSeg (srcAp s) ++ str "/ns/default/dc/"), .seg, .lit (str "/svc/"),
+  [.lit cSpiffe, .host s.td, .lit (apSeg (srcAp s) ++ cNsDefaultDc), .seg, .lit cSvc,
    if s.name = star then .seg else .lit s.name]
 
 def idToks (s : Src) : List Tok := idToksBody s
-def gwToks (td : Bytes) : List Tok := [.lit (str "spiffe://"), .host td, .lit (str "/gateway/mesh/dc/"), .seg]
-def xfccToks (s : Src) : List Tok := [.notComma, .lit (str ";URI=")] ++ idToksBody s ++ [.tail]
+def gwToks (td : Bytes) : List Tok := [.lit cSpiffe, .host td, .lit cGwPath, .seg]
+def xfccToks (s : Src) : List Tok := [.notComma, .lit cUri] ++ idToksBody s ++ [.tail]
 
 /-- what a caller presents on the wire -/
 structure Wire where
@@ -662,12 +700,23 @@ inductive Ident
   | raw (s : Bytes)
 deriving DecidableEq, Repr
 
-/-- `SpiffeIDService.URI().String()` / `SpiffeIDMeshGateway.URI().String()` for fields that need
-    no URL escaping -/
+/-- bytes that `net/url` leaves alone in a path (`shouldEscape(c, encodePath) = false`) -/
+def pathSafeByte (b : Nat) : Bool :=
+  (48 ≤ b && b ≤ 57) || (65 ≤ b && b ≤ 90) || (97 ≤ b && b ≤ 122) || cPathSafe.contains b
+
+def upperHex (n : Nat) : Nat := if n < 10 then 48 + n else 55 + n
+
+/-- `url.URL.EscapedPath` for a path given in `Path` only (`escape(s, encodePath)`) -/
+def escapePath : Bytes → Bytes
+  | [] => []
+  | b :: s => if pathSafeByte b then b :: escapePath s else 37 :: upperHex (b / 16) :: upperHex (b % 16) :: escapePath s
+
+/-- `SpiffeIDService.URI().String()` / `SpiffeIDMeshGateway.URI().String()`: what the certificate's
+    URI SAN says. The path is URL-escaped; the trust domain is assumed to need no host escaping. -/
 def spiffe : Ident → Bytes
   | .svc td ap ns dc name =>
-    str "spiffe://" ++ td ++ apSeg ap ++ str "/ns/" ++ ns ++ str "/dc/" ++ dc ++ str "/svc/" ++ name
-  | .gw td dc => str "spiffe://" ++ td ++ str "/gateway/mesh/dc/" ++ dc
+    cSpiffe ++ td ++ escapePath (apSeg ap ++ cNs ++ ns ++ cDc ++ dc ++ cSvc ++ name)
+  | .gw td dc => cSpiffe ++ td ++ escapePath (cGwPath ++ dc)
   | .raw s => s
 
 /-- one element of an XFCC header: everything before `;URI=` and the URI -/
@@ -676,7 +725,7 @@ structure XElem where
   uri : Ident
 deriving DecidableEq, Repr
 
-def xfccElem (e : XElem) : Bytes := e.pre ++ str ";URI=" ++ spiffe e.uri
+def xfccElem (e : XElem) : Bytes := e.pre ++ cUri ++ spiffe e.uri
 
 def xfccHeader : List XElem → Bytes
   | [] => []
@@ -700,7 +749,7 @@ def hostEq : Bytes → Bytes → Bool
 /-- does the identity belong to the source? (structured reading of `makeSpiffePattern`) -/
 def identM (s : Src) : Ident → Bool
   | .svc td ap ns _ name =>
-    td = s.td && apSeg ap = apSeg (srcAp s) && ns = str "default" && (s.name = star || name = s.name)
+    td = s.td && apSeg ap = apSeg (srcAp s) && ns = cDefault && (s.name = star || name = s.name)
   | _ => false
 
 def isGw (td : Bytes) : Ident → Bool
